@@ -681,6 +681,16 @@ func (e Element) indentChildren() bool {
 		if _, isWhitespaceTrailer := n.(WhitespaceTrailer); !isWhitespaceTrailer {
 			return true
 		}
+		// So does raw Go code that is written over several lines.
+		if code, isGoCode := n.(GoCode); isGoCode {
+			formatted, err := format.Source([]byte(code.Expression.Value))
+			if err != nil {
+				formatted = []byte(code.Expression.Value)
+			}
+			if code.writesSeveralLines(formatted) {
+				return true
+			}
+		}
 		// A child element that is written over several lines takes its parent with it.
 		if child, isElement := n.(Element); isElement && child.indentChildren() {
 			return true
@@ -1295,6 +1305,12 @@ type GoCode struct {
 	Multiline     bool
 }
 
+// writesSeveralLines reports whether the code is written in the multi-line form: when it spans
+// lines in the source, or when gofmt spreads it over lines ({{ a := 1; b := 2 }}).
+func (gc GoCode) writesSeveralLines(formatted []byte) bool {
+	return gc.Multiline || bytes.Contains(bytes.TrimSpace(formatted), []byte("\n"))
+}
+
 func (gc GoCode) Trailing() TrailingSpace {
 	return gc.TrailingSpace
 }
@@ -1308,7 +1324,7 @@ func (gc GoCode) Write(w io.Writer, indent int) error {
 	if err != nil {
 		source = []byte(gc.Expression.Value)
 	}
-	if !gc.Multiline {
+	if !gc.writesSeveralLines(source) {
 		if endsWithLineComment(string(source)) {
 			// Closing braces on the same line would become part of the comment.
 			if err := writeIndent(w, indent, `{{ `, string(source), "\n"); err != nil {
